@@ -472,6 +472,7 @@ def run_history(rec, tap, rng, cid):
     nops = int(rng.integers(3, 15))
     last_compared = None
     queue = []
+    force_final = False
     if rng.random() < .15:
         # preprocessing settings edited directly (options alone, or a
         # pipeline alone), then a fit and its repetition
@@ -503,6 +504,17 @@ def run_history(rec, tap, rng, cid):
                  second, ("fit0",), ("rate",), ("fit0",)]
         rec.event("scripted prefix: plateau search, lower range bound "
                   "changed")
+    elif rng.random() < .1:
+        # E(delta) scan, another number of samples (plateau search off), scan
+        ns2 = int(rng.choice([8, 11, 12]))
+        chg = ("fit", {"optimal_fit_num_samples": ns2}) \
+            if rng.random() < .5 else \
+            ("edit", {"optimal_fit_num_samples": ns2})
+        queue = [("fit", {"optimal_fit_edelta": False}), ("emod",), chg,
+                 ("emod",)]
+        nops = len(queue)
+        force_final = True
+        rec.event("scripted prefix: scan, sample count changed, scan")
     for step in range(nops):
         op = queue.pop(0) if queue else gen_op(rng)
         before = snapshot(idnt)
@@ -560,6 +572,35 @@ def run_history(rec, tap, rng, cid):
                           "after %d operations '%s' differs from a fresh copy "
                           "with the stored settings applied once"
                           % (len(hist), d), case)
+    # ---- at the end: the E(delta) scan of the curve equals the scan of a
+    # fresh copy with the stored settings (requested number of samples, same
+    # depth grid) - cached scan arrays must not survive a change of settings
+    if snapshot(idnt) is not None and (force_final or rng.random() < .5):
+        st = stored_settings(idnt)
+        f = factory()
+        try:
+            if "preprocessing" in st:
+                f.apply_preprocessing(st.pop("preprocessing"),
+                                      st.pop("preprocessing_options", {}))
+            f.fit_model(**st)
+            n1 = dict(tap.counts)
+            ef, df = f.compute_emodulus_mindelta()
+            ei, di = idnt.compute_emodulus_mindelta()
+            tap.counts.update(n1)
+        except BaseException as e:  # noqa
+            rec.event("final scan comparison not possible (%s)"
+                      % type(e).__name__)
+        else:
+            rec.event("final E(delta) scans compared with a fresh copy")
+            case = {"id": cid, "curve": desc, "history": hist,
+                    "stored_settings": stored_settings(idnt)}
+            df, di = np.asarray(df), np.asarray(di)
+            rec.check(df.shape == di.shape and
+                      np.allclose(df, di, rtol=1e-12, atol=0),
+                      "scan-differs-from-fresh-copy",
+                      "E(delta) scan after the history has %d samples, a "
+                      "fresh copy with the stored settings %d (or another "
+                      "depth grid)" % (di.size, df.size), case)
     rec.sample({"curve": desc if isinstance(desc, str) else "synthetic n=%d"
                 % desc["n"], "history": hist}, limit=2)
 
